@@ -59,6 +59,13 @@
 
 #define MAX_NLINES	(16384)
 #define MAX_LLEN	(1024)
+#if defined DATEUTILS_VERIF && defined VERIF_PRCH_NLINES && defined VERIF_PRCH_LLEN
+/* verification knob: shrink the reader window so its edges are cheap to reach */
+# undef MAX_NLINES
+# undef MAX_LLEN
+# define MAX_NLINES	(VERIF_PRCH_NLINES)
+# define MAX_LLEN	(VERIF_PRCH_LLEN)
+#endif	/* DATEUTILS_VERIF && VERIF_PRCH_* */
 
 #if !defined MAP_ANONYMOUS && defined MAP_ANON
 # define MAP_ANONYMOUS	(MAP_ANON)
@@ -143,6 +150,10 @@ prchunk_fill(prch_ctx_t ctx)
  * lines read so far and a reader yielding a buffer fill and the number of
  * bytes read */
 #define CHUNK_SIZE	(4096)
+#if defined DATEUTILS_VERIF && defined VERIF_PRCH_CHUNK
+# undef CHUNK_SIZE
+# define CHUNK_SIZE	(VERIF_PRCH_CHUNK)
+#endif	/* DATEUTILS_VERIF && VERIF_PRCH_CHUNK */
 #define YIELD(x)	goto yield##x
 	char *off = ctx->buf + 0;
 	char *bno = ctx->buf + ctx->bno;
